@@ -415,7 +415,7 @@ def edge_order_check(ctx, n_docs, per_doc):
 def correspond(ctx):
   r = ctx.rng
   cases = []
-  for i in range(ctx.n(400, 5000)):
+  for i in range(ctx.n(400, 3000)):
     s = random_summary(r)
     try:
       out = flush_real(s)
@@ -429,10 +429,10 @@ def correspond(ctx):
                     {'mode': 'flush', 'summary': summary_lit(s)})
     cases.append('(%s, (%s, %s))' % (summary_lit(s), acts_lit(out[0]), acts_lit(out[1])))
     ctx.count(('flush', i, summary_lit(s)), nontrivial=bool(out[0] or out[1]), kind='model:flush')
-  rc = auto_remove_cases(ctx, ctx.n(150, 2000))
+  rc = auto_remove_cases(ctx, ctx.n(150, 1000))
   both = ['(inl %s)' % c for c in cases] + ['(inr %s)' % c for c in rc]
   bad = ctx.run_cases('flush', [], '(fun c => match c with inl x => flush_check x | inr y => remove_check y end)',
-                      both, shard=2500, extra_defs=FLUSH_DEFS)
+                      both, shard=800, timeout=1800, extra_defs=FLUSH_DEFS)
   for i in bad[:5]:
     if i < len(cases):
       ctx.broken('correspondence:CalcFlush.convert_deltas_to_actions differs from action_summary.py', cases[i][:2500])
